@@ -1,12 +1,13 @@
 #!/bin/bash
 # usage: tools/try_mutant.sh <patch.diff> <ids...>
-# Applies the patch to the scratch worktree /tmp/rc (never to /repo), runs the given quick checks
-# against it through the scratch harness copy /tmp/hdev, prints one line per check, reverts.
+# Applies the patch to the scratch worktree $VERIF_RC (default /tmp/rc; never to /repo), runs the given quick checks
+# against it through the scratch harness copy $VERIF_HDEV (default /tmp/hdev), prints one line per check, reverts.
 patch=$1; shift
-cd /tmp/rc || exit 2
+RC=${VERIF_RC:-/tmp/rc}; HDEV=${VERIF_HDEV:-/tmp/hdev}
+cd $RC || exit 2
 git checkout -q -- . && git clean -fdq -e target
 git apply "$patch" || { echo "patch does not apply"; exit 2; }
-export VERIF_HARNESS_DIR=/tmp/hdev VERIF_REPLAY_DIR=/tmp/hdev/replays VERIF_EVIDENCE_DIR=/tmp/hdev/evidence VERIF_REPO_DIR=/tmp/rc
+export VERIF_HARNESS_DIR=$HDEV VERIF_REPLAY_DIR=$HDEV/replays VERIF_EVIDENCE_DIR=$HDEV/evidence VERIF_REPO_DIR=$RC
 for id in "$@"; do
   out=$(/verif/check $id quick 2>&1); rc=$?
   echo "$id rc=$rc $(echo "$out" | grep -E "^\[$id" | tail -1)"
